@@ -60,6 +60,8 @@ class BackendAdapter:
             elif a == "end":
                 cm = self.cm.pop(c)
                 cm.__exit__(None, None, None)
+            elif a == "cflush":
+                self.c[c].flush()
             elif a == "cput":
                 self.c[c][SKEYS[act["k"]]] = VALS[act["v"]]
             elif a == "cget":
